@@ -89,5 +89,6 @@ def signature(spec, result):
 
 
 def run(ctx):
+    common.TIE_EXCUSES["value"] = True
     return common.run_docprop(ctx, "c03", generate, signature, extra_fn=extra_fn, n_quick=200, n_thorough=4000,
                               shrink_steps=120)
